@@ -2,13 +2,18 @@
 //! wrappers) on the operand shapes enumerated by spec/gcd/GcdShapes.tla.  Every event carries an
 //! independent Bezout witness (plain Euclid on 2048-bit integers) that spec/gcd/GcdTrace.tla verifies
 //! before judging what the code returned.  Nothing is judged here.
+//!
+//! With `--steps-every K` a subset of the pairs is run once more through gcd_internal<N,true> and <N,false> with the
+//! per-iteration hooks of arith_gcd.rs switched on (yamaquasi::verif::start/stop): the hook events (enter, swap /
+//! slow / fast per loop iteration, exit) plus a harness event `result` form one group per call in `--steps-out`,
+//! replayed by spec/gcd/GcdStepTrace.tla against the loop model at the real word size (Drift only).
 
 use bnum::cast::CastFrom;
 use bnum::types::{I2048, U2048};
 use bnum::{BInt, BUint};
 use rand::rngs::StdRng;
 use rand::Rng;
-use serde_json::{json, Value};
+use serde_json::{json, Map, Value};
 
 use yamaquasi::arith_gcd;
 use yamaquasi::arith_montgomery::{MInt, ZmodN};
@@ -166,6 +171,62 @@ fn run_pair<const N: usize>(out: &mut Out, case: &str, sh: &Value, a: &Uint, b: 
     alive
 }
 
+/// re-encodes a value written by the hooks of arith_gcd.rs ({"w":[words]} / {"neg":b,"w":[words]}) into the
+/// BigNat / BigInt representation of spec/lib
+fn conv_hook(v: &Value) -> Value {
+    match v {
+        Value::Object(m) if m.contains_key("w") => {
+            let w: Vec<u64> = m["w"].as_array().unwrap().iter().map(|x| x.as_u64().unwrap()).collect();
+            let d = digits_from_words(&w);
+            match m.get("neg") {
+                Some(n) => json!({"neg": n.clone(), "mag": d}),
+                None => d,
+            }
+        }
+        other => other.clone(),
+    }
+}
+
+/// One call of gcd_internal::<N, EXT> with the per-iteration hooks of arith_gcd.rs switched on: the hook
+/// events (enter, one per loop iteration, exit) are written as one group (`case`), followed by a harness event
+/// `result` with what the call returned.  spec/gcd/GcdStepTrace.tla replays the group against the loop model.
+fn trace_steps<const N: usize, const EXT: bool>(out: &mut Out, case: &str, sh: &Value, a: &Uint, b: &Uint, lat: bool) {
+    let (an, bn) = (narrow::<N>(a), narrow::<N>(b));
+    let case = format!("{}/{}", case, if EXT { "x" } else { "g" });
+    let me = yamaquasi::verif::tid();
+    yamaquasi::verif::start();
+    let r = guard(|| arith_gcd::gcd_internal::<N, EXT>(&an, &bn));
+    let evs = yamaquasi::verif::stop();
+    for line in evs {
+        let v: Value = match serde_json::from_str(&line) {
+            Ok(v) => v,
+            Err(_) => continue,
+        };
+        let op = v["op"].as_str().unwrap_or("");
+        if v["tid"].as_u64() != Some(me as u64) || !op.starts_with("gcd_") {
+            continue; // (a call abandoned after a deadline may still be running on another thread)
+        }
+        let mut o = Map::new();
+        o.insert("op".into(), Value::from(&op[4..]));
+        o.insert("case".into(), Value::from(case.clone()));
+        for (k, x) in v.as_object().unwrap() {
+            if k != "op" && k != "tid" {
+                o.insert(k.clone(), conv_hook(x));
+            }
+        }
+        if op == "gcd_enter" {
+            o.insert("shape".into(), sh.clone());
+            o.insert("lat".into(), Value::from(lat));
+            o.insert("nd".into(), Value::from(a.to_string()));
+            o.insert("pd".into(), Value::from(b.to_string()));
+        }
+        out.ev(Value::Object(o));
+    }
+    let base = json!({"op": "result", "case": case, "shape": sh, "N": N, "ext": EXT, "a": dn(a), "b": dn(b)});
+    let r = r.map(|(g, u, v)| if EXT { json!({"g": dn(&g), "u": di(&u), "v": di(&v)}) } else { json!({"g": dn(&g)}) });
+    out.ev(merge(base, r));
+}
+
 fn to_mint(x: &Uint) -> MInt {
     let mut m = MInt::default();
     m.0.copy_from_slice(&x.digits()[..8]);
@@ -179,6 +240,14 @@ pub fn run(args: &Args) -> i32 {
     let mut out = Out::create(arg_str(args, "out", "trace.ndjson"));
     let mut rng = rng_for(seed, "c09");
     let mut hung = 0;
+    // per-iteration traces (spec/gcd/GcdStepTrace.tla): every `steps_every`-th shape of each (instantiation,
+    // relation) class, both variants of gcd_internal; `lat_every`: how many of those carry the request to check
+    // the full lattice invariant at every step (otherwise it is checked by induction and at the exit)
+    let steps_every = arg_u64(args, "steps-every", 0);
+    let lat_every = arg_u64(args, "lat-every", 1);
+    let mut steps_out = if steps_every > 0 { Some(Out::create(arg_str(args, "steps-out", "steps.ndjson"))) } else { None };
+    let mut seen_class: std::collections::HashMap<(u64, String), u64> = std::collections::HashMap::new();
+    let mut traced = 0u64;
     for (si, sh) in shapes.iter().enumerate() {
         let n = sh["n"].as_u64().unwrap();
         let wa = sh["wa"].as_u64().unwrap() as u32;
@@ -201,6 +270,21 @@ pub fn run(args: &Args) -> i32 {
             // the wrappers of the modular ring: odd modulus <= 500 bits, residue below it
             if !alive {
                 hung += 1;
+            }
+            if let (Some(so), true, 0) = (steps_out.as_mut(), alive, hung) {
+                let k = seen_class.entry((n, rel.to_string())).or_insert(0);
+                *k += 1;
+                if (*k - 1) % steps_every == 0 {
+                    let lat = traced % lat_every == 0;
+                    traced += 1;
+                    if n == 8 {
+                        trace_steps::<8, true>(so, &case, sh, &a, &b, lat);
+                        trace_steps::<8, false>(so, &case, sh, &a, &b, lat);
+                    } else {
+                        trace_steps::<16, true>(so, &case, sh, &a, &b, lat);
+                        trace_steps::<16, false>(so, &case, sh, &a, &b, lat);
+                    }
+                }
             }
             if alive && n == 8 && (si + rep as usize) % 4 == 0 {
                 let (mut m, mut x) = if a >= b { (a, b) } else { (b, a) };
@@ -234,6 +318,7 @@ pub fn run(args: &Args) -> i32 {
         }
     }
     let n = out.finish();
-    println!("{}", json!({ "events": n }));
+    let ns = steps_out.map(|o| o.finish()).unwrap_or(0);
+    println!("{}", json!({ "events": n, "step_events": ns }));
     0
 }
